@@ -2,14 +2,17 @@ from props_common import COMMON_TRUSTED
 
 CONFIG = {
     "areas": ["handshake"],
-    "lean": ["VProps.C15"],
-    "sources": ["VProps/C15.lean", "VModel/Handshake.lean", "VModel/HandshakeSpec.lean", "VModel/HandshakeInvite.lean", "VModel/HandshakeInviteSpec.lean", "VModel/FedCheck.lean"],
+    "lean": ["VProps.C15", "VProps.C15Compose"],
+    "sources": ["VProps/C15.lean", "VProps/C15Compose.lean", "VModel/Handshake.lean", "VModel/HandshakeSpec.lean", "VModel/HandshakeInvite.lean", "VModel/HandshakeInviteSpec.lean", "VModel/FedCheck.lean"],
     "theorems": ["V.C15.sendJoin_ok_implies_guards", "V.C15.sendJoin_signs_unmodified", "V.C15.sendJoin_decision_table", "V.C15.makeJoin_ok_implies_guards", "V.C15.makeJoin_ok_implies_spec", "V.C15.pickAuthoriser_some", "V.C15.rulesLoop_some", "V.C15.restrictedStage_err_class", "V.C15.makeJoin_decision_table", "V.C15.makeLeave_ok_implies_guards", "V.C15.makeLeave_decision_table", "V.C15.invite_ok_implies_guards", "V.C15.invite_signs_unmodified", "V.C15.invite_decision_table", "V.C15.inviteCommonChecks_table", "V.C15.performJoin_ok_implies", "V.C15.inviteV3_ok_implies", "V.C15.inviteV3_decision_table",
                  "V.C15.performInvite_ok_implies_guards", "V.C15.performInvite_decision_table", "V.C15.performInvite_no_panic",
                  "V.C15.piPrepare_table", "V.C15.sendJoinPseudo_ok_implies_guards", "V.C15.sendJoinPseudo_decision_table",
                  # round 5: the event PerformJoin returns is a join of ours; what PerformJoin stores in pseudo-ID rooms, and when
                  "V.C15.joinEventUsed_ok", "V.C15.performJoinPseudo_stores_vouched", "V.C15.performJoinPseudo_trace_shape",
-                 "V.C15.performJoinPseudo_ok_implies"],
+                 "V.C15.performJoinPseudo_ok_implies",
+                 # composition with C07 / C06 (VProps/C15Compose.lean): the Allowed bit of the templates computed by VModel.Auth.allowedFresh,
+                 # the verify bit of send_join / invite computed from the verifier's answer to the one request the handlers make
+                 "V.C15.makeJoin_template_allowed", "V.C15.makeLeave_template_allowed", "V.C15.makeJoin_cross_room_refused", "V.C15.makeLeave_cross_room_refused", "V.C15.allowed_state_one_room", "V.C15.templateEvent_shape", "V.C15.makeJoin_proto_template_allowed", "V.C15.makeLeave_proto_template_allowed", "V.C15.makeJoin_proto_cross_room_refused", "V.C15.sender_server_required", "V.C15.sendJoin_origin_signature_valid", "V.C15.invite_sender_signature_valid", "V.C15.join_required_cases", "V.C15.invite_required_cases", "V.C15.sendJoin_required_signers_covered", "V.C15.sendJoin_passes_verifyEventSignatures", "V.C15.invite_required_signers_covered"],
     "rule": "handshake: each handler is run with mock queriers / verifier / template builder / federation client built from the op line; "
             "parameters start on the accepting path and deviate independently with probability 12% (40% in a quarter of the ops): room version "
             "(known / unknown / not offered by the remote), origin vs user domain, local server in room, event shape (membership incl. missing and "
